@@ -228,6 +228,42 @@ def signature_invariance(F, rep, rule):
             rep.ob(rule, "%s compares parameter types with signature_check set" % mir.short(g.path), "ok" if ok else "violated", why, c.span, fn=g.path,
                    key="%s|%s|#%d" % (rule, mir.short(g.path), n))
     rep.floor(rule + " parameter comparisons in FunctionType::eq", n, 1)
+    # ... and the flag reaches the *element types* of a list parameter: eq_complex, evaluated abstractly with the flags signature_check()
+    # constructs, refuses ([T?...], [T...]) and ([T...], [T?...]) like (T?, T), and accepts equal list types
+    import tables
+    from props import _hashkeys
+    from absint import Interp, Variant, TRUE, FALSE, NONE
+    eqc = [f for f in F.crates["compiler"].fns if f.path.endswith("TypeLayout::eq_complex") and f.kind != "Closure"]
+    fl = F.adt("compiler::ast::r#type::TypecheckFlags")
+    if len(eqc) != 1 or fl is None:
+        raise AnchorMissing("TypeLayout::eq_complex / TypecheckFlags")
+    vals = {"signature_check": TRUE, "executing_class": NONE}
+    flags = Variant("compiler::ast::r#type::TypecheckFlags", 0, "TypecheckFlags", [vals.get(x["name"], FALSE) for x in fl["variants"][0]["fields"]])
+    ty = _hashkeys.Types(F)
+    m = 0
+    for a, b, want in ((("Opt", "Int"), "Int", False), ("Int", ("Opt", "Int"), False), (("Open", ("Opt", "Int")), ("Open", "Int"), False),
+                       (("Open", "Int"), ("Open", ("Opt", "Int")), False), (("Open", ("Opt", "Int")), ("Open", ("Opt", "Int")), True),
+                       (("Open", "Int"), ("Open", "Int"), True),
+                       (("Open", ("Open", ("Opt", "Int"))), ("Open", ("Open", "Int")), False)):
+        ms_ = dict(tables.MODELS)
+        ms_.update(_hashkeys._iter_models())
+        it = Interp(F, models=ms_, max_depth=12, max_paths=2048, loop_bound=8)
+        try:
+            outs = it.run(eqc[0], [ty.build(a, "a"), ty.build(b, "b"), flags])
+            got = {bool(o.value.v) if (o.kind == "return" and hasattr(o.value, "v")) else "?" for o in outs}
+        except (ValueError, KeyError):
+            got = {"?"}
+        key = "%s|elements|%s|%s" % (rule, _hashkeys.show(a), _hashkeys.show(b))
+        label = "as parameter types, %s and %s are %s" % (_hashkeys.show(a), _hashkeys.show(b), "the same" if want else "different")
+        if it.exhausted or "?" in got or len(got) != 1:
+            rep.ob(rule, label, "undecided", "eq_complex not evaluated: %s" % sorted(map(str, got)), eqc[0].span, fn=eqc[0].path, key=key)
+            continue
+        m += 1
+        g = got.pop()
+        rep.ob(rule, label, "ok" if g == want else "violated",
+               "" if g == want else "eq_complex under signature_check answers %s: a `fn([int...])` passes for a `fn([int?...])` and is called with a list that holds nil" % g,
+               eqc[0].span, fn=eqc[0].path, key=key)
+    rep.floor(rule + " element-type evaluations", m, 6)
 
 
 def return_scope(F, rep):
